@@ -29,9 +29,9 @@ class Plan:
         self.test, self.trace_module = test, trace_module
 
 
-def mc(module, tag, invariants=("NoViolation",), export=True, replay_cap=None, constraint=None, **consts):
+def mc(module, tag, invariants=("NoViolation",), export=True, replay_cap=None, constraint=None, spec="Spec", **consts):
     return {"module": module, "tag": tag, "inv": list(invariants), "export": export, "consts": consts,
-            "replay_cap": replay_cap or {}, "constraint": constraint}
+            "replay_cap": replay_cap or {}, "constraint": constraint, "spec": spec}
 
 
 def q(s):
@@ -39,7 +39,7 @@ def q(s):
 
 
 def decide_models(tier):
-    cap = {"quick": 6000}
+    cap = {"quick": 6000, "thorough": 150000}
     return [mc("MC_decide", "decideF", replay_cap=cap, Defects="{}", Family=q("F"), Tier=q(tier), Export="TRUE"),
             mc("MC_decide", "decideV", replay_cap=cap, Defects="{}", Family=q("V"), Tier=q(tier), Export="TRUE")]
 
@@ -57,7 +57,7 @@ for _p in ("C01", "C02", "C09", "C11", "C13", "C18"):
 
 def hist_models(*fams):
     def f(tier):
-        cap = {"quick": 5000, "thorough": 400000}
+        cap = {"quick": 5000, "thorough": 150000}
         return [mc("MC_hist", "hist_" + fam, replay_cap=cap, Defects="{}", Family=q(fam), Tier=q(tier), Export="TRUE") for fam in fams]
     return f
 
@@ -87,11 +87,13 @@ def uri_scenarios(rows, tier, seed):
     r = random.Random(seed * 2654435761 + 9)
     cap = 2500 if tier == "quick" else 10 ** 9
     if len(rows) > cap:
-        eq = [x for x in rows if x["equiv"]]
-        ne = [x for x in rows if not x["equiv"]]
-        r.shuffle(eq)
-        r.shuffle(ne)
-        rows = eq[:cap // 2] + ne[:cap - min(len(eq), cap // 2)]
+        # all equivalent pairs and all pairs that differ in a single component, a seeded sample of the rest
+        def dist(x):
+            return sum(1 for k in x["a"] if x["a"][k] != x["b"][k])
+        keep = [x for x in rows if x["equiv"] or dist(x) <= 1]
+        rest = [x for x in rows if not (x["equiv"] or dist(x) <= 1)]
+        r.shuffle(rest)
+        rows = keep + rest[:max(0, cap - len(keep))]
     out = []
     a_ok = gen.ans(ccp=1, ma=100, etag=1)
     for i, x in enumerate(rows):
@@ -133,7 +135,7 @@ def bytes_scenarios(rows, tier, seed):
     return out
 
 
-PLANS["C06"] = Plan("C06", store_models, extra=gen.random_store,
+PLANS["C06"] = Plan("C06", lambda tier: store_models(tier) + hist_models("wb")(tier), extra=gen.random_store,
                     rule="behaviours = the MC_store table (status x response directives x explicit freshness x request shape x "
                          "complete / failing body, then a probe) exported by TLC and replayed, plus seeded random exchanges over "
                          "all statuses 100-599 and body streams failing at every byte of a small body; the NothingStored monitor "
@@ -260,7 +262,27 @@ def atomic_models(tier):
     big = tier == "thorough"
     return [mc("FsAtomic", "fsatomic", invariants=("NoTornRead", "LiveComplete"), export=False,
                Writers="{1, 2, 3}" if big else "{1, 2}", Readers="{1, 2}" if big else "{1}", Deleters="{1}", Vals="{1, 2}",
-               Chunks="3" if big else "2", WriteMode=q("rename"), TmpNames=q("unique"))]
+               Chunks="3" if big else "2", WriteMode=q("rename"), TmpNames=q("unique")),
+            mc("MC_fsched", "fsched", invariants=("NoTornRead", "Exported"), export=True, spec="SSpec",
+               Writers="{1, 2}", Readers="{1}", Deleters="{1}" if big else "{}", Vals="{1, 2}", Chunks="1",
+               WriteMode=q("rename"), TmpNames=q("unique"), Export="TRUE")]
+
+
+def sched_scenarios(rows, tier, seed):
+    """every schedule of MC_fsched replayed on a real directory (quick: a seeded sample)"""
+    import base64
+    r = random.Random(seed * 275604541 + 47)
+    cap = 600 if tier == "quick" else 10 ** 9
+    if len(rows) > cap:
+        rows = r.sample(rows, cap)
+    out = []
+    key = base64.b64encode(b"the-contended-key").decode()
+    for i, row in enumerate(rows):
+        be = "fsenc" if i % 3 == 2 else "fs"
+        vals = [{"len": 3000 + 7 * (i % 5), "seed": 101}, {"len": 90000 if i % 4 == 0 else 2000, "seed": 202}]
+        out.append({"id": "sched/%05d" % i, "backend": be, "keys": [key], "vals": vals,
+                    "ops": [{"op": "sched", "k": 0, "sched": row["sched"], "reads": row["reads"]}, {"op": "get", "k": 0}, {"op": "keys", "p": -1}]})
+    return out
 
 
 PLANS["C14"] = Plan("C14", kv_models, extra=gen.kv_random, rows_to_scenarios=gen.kv_from_rows, test="TestKV", trace_module="TraceKV",
@@ -271,7 +293,7 @@ PLANS["C14"] = Plan("C14", kv_models, extra=gen.kv_random, rows_to_scenarios=gen
                          "file-name boundaries, arbitrary bytes, URL-shaped keys with '#', the empty key) on memory / file system / "
                          "encrypted file system, partly through the expapi HTTP handlers; plus long random sequences over six keys; "
                          "FsLayout.tla checks the file-name design at model scale; non-trivial = a Get / Delete / listing was judged")
-PLANS["C15"] = Plan("C15", atomic_models, extra=gen.kv_cuts, test="TestKV", trace_module="TraceKV", assumptions=KV_TRUSTED,
+PLANS["C15"] = Plan("C15", atomic_models, extra=gen.kv_cuts, rows_to_scenarios=sched_scenarios, test="TestKV", trace_module="TraceKV", assumptions=KV_TRUSTED,
                     level="model_checking",
                     rule="FsAtomic.tla: all interleavings of the file-level steps of concurrent Set / Get / Delete on one key with "
                          "write failure and process kill at every step (exhaustive TLC run of the rename-based design); binding: a "
@@ -339,6 +361,25 @@ def stratum(scn):
             first.get("sie", -1) >= 0, tuple(a.get("k") + str(a.get("st")) for a in last.get("ans", [])))
 
 
+class Thinner:
+    """bounds the memory of very large exports: at most `per` rows of every stratum are kept while the export is
+    parsed (reservoir sampling, seeded); the final stratified sample is drawn from those"""
+
+    def __init__(self, cap, seed):
+        self.per = max(8, cap // 400)
+        self.r = random.Random(seed * 6700417 + 5)
+        self.seen = {}
+
+    def __call__(self, row):
+        try:
+            k = stratum(row)
+        except Exception:
+            return True
+        n = self.seen.get(k, 0) + 1
+        self.seen[k] = n
+        return n <= self.per or self.r.random() < self.per / n
+
+
 def stratified(scn, cap, seed):
     """seeded sample that keeps every stratum (at least a few rows of each)"""
     r = random.Random(seed * 1000003 + 11)
@@ -404,12 +445,14 @@ def run_property(prop, tier, seed):
         # 1. the specification itself: exhaustive TLC runs, behaviours exported
         scenarios, states, transitions, mcinfo = [], 0, 0, []
         for m in plan.models(tier):
+            cap = m.get("replay_cap", {}).get(tier)
             stats, rows, _ = vlib.model_check(work, m["module"], m["consts"], invariants=m["inv"], export=m["export"], name=m["tag"],
-                                              constraint=m.get("constraint"))
+                                              constraint=m.get("constraint"), spec=m.get("spec", "Spec"),
+                                              keep=Thinner(cap, seed) if cap and not plan.rows_to_scenarios else None)
             states += stats["distinct"]
             transitions += stats["generated"]
             mcinfo.append({"config": m["tag"], "constants": m["consts"], "distinct_states": stats["distinct"],
-                           "states_generated": stats["generated"], "behaviours_exported": len(rows), "wall_s": stats["wall_s"]})
+                           "states_generated": stats["generated"], "behaviours_exported": stats.get("exported", len(rows)), "wall_s": stats["wall_s"]})
             be = plan.backends or (lambda i: "mem")
             if not m["export"]:
                 continue
